@@ -6,6 +6,7 @@ package harness
 
 import (
 	"encoding/json"
+	"math/rand"
 	"os"
 	"strconv"
 	"sync"
@@ -97,4 +98,21 @@ func (o *out) flushStatus() {
 func (o *out) Close() {
 	o.flushStatus()
 	_ = o.sink.Close()
+}
+
+// closeMix turns a scenario into a Close-at-this-point scenario (C10): the socket is closed after a
+// random prefix (with whatever calls are pending at that moment), then every kind of call is issued
+// again - each must fail with a closed error (or the designated alternative) rather than block.
+func closeMix(steps []string, rng *rand.Rand, follow []string) []string {
+	if os.Getenv("VERIF_MIX") != "close" {
+		return steps
+	}
+	cut := 0
+	if len(steps) > 0 {
+		cut = rng.Intn(len(steps) + 1)
+	}
+	out := append([]string{}, steps[:cut]...)
+	out = append(out, "sclose")
+	out = append(out, follow...)
+	return out
 }
